@@ -582,19 +582,25 @@ func judge(sc *scenario, o *outcome) (v verdict) {
 	if sc.Peer.SlowDL {
 		slack = dlSlack // the conn's own latency in applying a deadline
 	}
-	if v.HasBound && (o.Rescued || o.TR > v.Bound+slack) {
+	// "On a connection that honours deadlines": a conn that rejects the
+	// deadline and does not apply it is none, once Dial works on it.
+	deaf := sc.Peer.DLFault == "err-ignored" && o.ConnObtained
+	if deaf && v.HasBound && (o.Rescued || o.TR > v.Bound+slack) {
+		v.Open = "conn-does-not-honour-deadlines"
+	}
+	if v.HasBound && !deaf && (o.Rescued || o.TR > v.Bound+slack) {
 		v.Violation = fmt.Sprintf("Dial was due to return at %v (%s) but returned at %v (watchdog fired: %v)", v.Bound, v.BoundKind, o.TR, o.Rescued)
 		return
 	}
-	if o.Rescued {
+	if o.Rescued && v.Open == "" {
 		v.Open = "unbounded-wait" // no context end, no timeout: waiting on the peer is legal
 	}
 
-	if v.HasBound && strings.HasPrefix(v.BoundKind, "timeout") && sc.timeout() > 0 && o.TR >= v.Bound && o.Err == nil {
+	if v.HasBound && !deaf && strings.HasPrefix(v.BoundKind, "timeout") && sc.timeout() > 0 && o.TR >= v.Bound && o.Err == nil {
 		v.Violation = fmt.Sprintf("the dial timeout (%v) fired while Dial was blocked, yet Dial returned a nil error at %v", sc.timeout(), o.TR)
 		return
 	}
-	if sc.timeout() < 0 && o.Err == nil {
+	if sc.timeout() < 0 && !deaf && o.Err == nil {
 		v.Violation = fmt.Sprintf("Dialer.Timeout = %v has elapsed before Dial was called, yet Dial returned a nil error", sc.timeout())
 		return
 	}
@@ -650,12 +656,14 @@ func judge(sc *scenario, o *outcome) (v verdict) {
 			v.Open = "netdial-ignored-its-context"
 		}
 	}
-	if ctxEnds && !ctxEndTimed && sc.timeout() != 0 && o.CancelAt >= maxZero(sc.timeout()) && (pl.Kind == "io" || pl.Kind == "dial-return") {
-		// the dial timeout had fired before the harness cancelled (at an I/O
-		// call made on the already expired conn): the timeout's error stands
+	if ctxEnds && pl.Kind != "pre" && sc.timeout() != 0 && ctxEnd >= maxZero(sc.timeout()) {
+		// The dial timeout fired before the context ended (Dial was still
+		// running because the harness cancelled at an I/O call made on the
+		// already expired conn, or because the conn does not apply deadlines):
+		// the timeout's error stands.
 		ctxEnds = false
 		if v.Open == "" {
-			v.Open = "cancelled-after-the-timeout-fired"
+			v.Open = "context-ended-after-the-timeout-fired"
 		}
 	}
 	lastInstant := false
@@ -690,7 +698,8 @@ func judge(sc *scenario, o *outcome) (v verdict) {
 		// 400 status line) may already be there while the prefetch is still
 		// blocked, and are handed over when the poison ends it.
 		prefetch := sc.Entry == "debug" && (sc.Debug == "both" || sc.Debug == "resp")
-		ownFailure := (sc.Peer.SlowDL || lastInstant || prefetch) && o.Err != nil && !isNetTimeout(o.Err) &&
+		// (on a conn that does not apply deadlines the poison never lands)
+		ownFailure := (sc.Peer.SlowDL || lastInstant || prefetch || deaf) && o.Err != nil && !isNetTimeout(o.Err) &&
 			(sc.Peer.Resp != "valid" || sc.Peer.Deliver >= 0 || sc.Peer.EOF) && !errors.Is(o.Err, errCause)
 		switch {
 		case o.CtxErrAtReturn == nil:
